@@ -12,8 +12,8 @@
     lookup function.  The destructors visit the keys in insertion order where the C++ code
     visits them in key order; the visits touch different lists, so the order is immaterial.
   * The `SignalActivation` objects live on the C++ call stack: `State.frames` is that stack
-    (bottom first), a frame id is its position, `SignalData.activation` and `Frame.next`
-    are frame ids exactly as the C++ pointers.
+    (innermost first), a frame id is its distance from the bottom (`frameAt`), `SignalData.activation`
+    and `Frame.next` are frame ids exactly as the C++ pointers.
   * Touching freed memory is a *fault* (`State.fault := true`), never a silent default:
     `~Listener` reaching a destroyed emitter, `~Emitter` reaching a destroyed listener,
     `~SignalActivation` of a non-invalidated frame whose emitter is gone, an emission loop
@@ -85,6 +85,22 @@ structure State where
   nextNode : Nat
   fault : Bool
 
+
+/-! ### the stack of activation frames (innermost first; id = distance from the bottom) -/
+
+def frameAt : List Frame → Nat → Option Frame
+  | [], _ => none
+  | f :: fs, i => if i = fs.length then some f else frameAt fs i
+
+/-- `frame(i)->invalidated = true` -/
+def setInvalid : List Frame → Nat → List Frame
+  | [], _ => []
+  | f :: fs, i => if i = fs.length then { f with invalidated := true } :: fs else f :: setInvalid fs i
+
+/-- the stack below frame `i` (frame `i` and everything above it is gone) -/
+def popTo : List Frame → Nat → List Frame
+  | [], _ => []
+  | f :: fs, i => if fs.length < i then f :: fs else popTo fs i
 
 /-! ### small helpers -/
 
@@ -193,8 +209,8 @@ def delListener (l : Nat) (st : State) : State :=
 /-! ### `Callback::Emitter::~Emitter` (Callback.cpp:4-30) -/
 
 def invalidate (st : State) (a : Nat) : State :=
-  match st.frames[a]? with
-  | some f => { st with frames := st.frames.set a { f with invalidated := true } }
+  match frameAt st.frames a with
+  | some _ => { st with frames := setInvalid st.frames a }
   | none => st.faulted
 
 /-- body of the slot loop: remove the (signal, slot) pair from the receiver's list -/
@@ -235,7 +251,7 @@ def actBegin (e g : Nat) (st : State) : State × Option (Nat × Nat) :=
     | none => (st, none)
     | some d =>
       let fid := st.frames.length
-      let st1 : State := { st with frames := st.frames ++ [({ next := d.activation, invalidated := false, data := (e, g) } : Frame)] }
+      let st1 : State := { st with frames := ({ next := d.activation, invalidated := false, data := (e, g) } : Frame) :: st.frames }
       (st1.setEmitter e (some (em.setSig g { d with activation := some fid })), some (fid, 0))
 
 /-! ### the loop of `emit` between two invocations (Callback.hpp:42-43) -/
@@ -255,7 +271,7 @@ inductive Step (π : Type) where
 
 /-- from iterator position `idx` of activation `fid`: the next slot to invoke -/
 def next (st : State) (fid idx : Nat) : Step Nat :=
-  match st.frames[fid]? with
+  match frameAt st.frames fid with
   | none => .fault
   | some f =>
     if f.invalidated then .done                  -- `if(activation.invalidated) return;`
@@ -279,10 +295,10 @@ def purge : List Slot → List Slot
     | .connected => x :: purge xs
 
 def actEnd (fid : Nat) (st : State) : State :=
-  match st.frames[fid]? with
+  match frameAt st.frames fid with
   | none => st.faulted
   | some f =>
-    let st0 : State := { st with frames := st.frames.take fid }
+    let st0 : State := { st with frames := popTo st.frames fid }
     if !f.invalidated then
       match st0.emitters f.data.1 with
       | none => st0.faulted
